@@ -5,7 +5,7 @@ import re
 from engine import kinds
 from engine.facts import Site, Slicer, norm, operand_local, control_deps, last_field
 from engine.slicing import FlowSlicer
-from rules.c01 import scheduler_impls, impl_method, WRAPPERS, DENY, HASHIT, ALLOW_HASHIT, REINIT
+from rules.c01 import scheduler_impls, impl_method, WRAPPERS, DENY, HASHIT, ALLOW_HASHIT, REINIT, hash_iteration_allowed
 
 CRATES = {"shuttle_engine", "shuttle_schedulers"}
 EXPLANATION = (
@@ -46,7 +46,7 @@ def r1_determinism(ctx):
                             if "env::var" in c and f.endswith("RandomScheduler as shuttle_engine::scheduler::Scheduler>::new_execution"):
                                 continue   # SHUTTLE_ALWAYS_PERSIST_SEED: write-only side channel (C01.R6 table)
                             bad.append("%s calls %s at %s" % (f, c, fb.loc(s)))
-                        if HASHIT.search(c) and kinds.root_fn(prog, f) not in ALLOW_HASHIT:
+                        if HASHIT.search(c) and not hash_iteration_allowed(prog, fb, s, t, c):
                             bad.append("%s iterates a default-hasher collection (%s) at %s" % (f, c, fb.loc(s)))
             ctx.ob("C10.R1", "deterministic|%s" % b.nkey, not bad,
                    "`%s` and its %d in-crate callees use no ambient nondeterminism" % (b.nkey, len(fns) - 1) if not bad else "; ".join(bad[:3]), loc=b.loc())
